@@ -94,6 +94,7 @@ var stdDefs = []ContentDef{
 	{ID: "a5", Kind: "index", MT: "oci.index", Children: []string{}, Subject: "m1", AT: "at3", Annot: true},
 	{ID: "a6", Kind: "image", MT: "oci.image", Cfg: "b1", CfgMT: types.MediaTypeOCI1Empty, Layers: []string{}, Subject: "x1", AT: "at1"},
 	{ID: "a7", Kind: "image", MT: "oci.image", Cfg: "b1", CfgMT: types.MediaTypeOCI1Empty, Layers: []string{"b3"}, Subject: "m2", AT: "at1"},
+	{ID: "a9", Kind: "image", MT: "oci.image", Cfg: "b1", CfgMT: types.MediaTypeOCI1Empty, Layers: []string{"b2"}, Subject: "m1", AT: "at1"},
 	{ID: "a8", Kind: "image", MT: "oci.image", Cfg: "b1", CfgMT: types.MediaTypeOCI1Empty, Layers: []string{}, Subject: "m1", SubjAlg: "sha512", AT: "at1"},
 }
 
